@@ -60,6 +60,12 @@ func TestVerifC16(t *testing.T) {
 		}
 		c16HeartbeatSender(out)
 	}()
+	// related secrets (prefixes, zero-extensions, digests, …): derivation of every pair, handshakes, the real listener
+	bg.Add(1)
+	go func() {
+		defer bg.Done()
+		c16RelatedSecretsRun(out, vlib.NewRand("C16-related-secrets"), vlib.Budget(10, -1), vlib.Budget(8, 60))
+	}()
 	// whatever needs seconds to pass: stalled networks, sessions used after the context of their handshake ended
 	bg.Add(1)
 	go func() {
@@ -176,11 +182,16 @@ func c16Replay(t *testing.T, out *vlib.Out, path string) {
 	}
 	for _, line := range strings.Split(string(b), "\n") {
 		f := strings.Split(line, "|")
-		if c16ReplayTime(out, line) {
+		if c16ReplayTime(out, line) || c16ReplaySecrets(out, line) {
 			continue
 		}
 		switch {
-		case (f[0] == "sctp" || f[0] == "hbsctp") && len(f) == 5:
+		case (f[0] == "sctp" || f[0] == "hbsctp") && (len(f) == 5 || (len(f) == 6 && strings.HasPrefix(f[5], "heartbeats="))):
+			flags := ""
+			if len(f) == 6 {
+				flags = strings.TrimPrefix(f[5], "heartbeats=")
+				line = strings.Join(f[:5], "|")
+			}
 			c := &c16ReadCase{hbMode: f[0] == "hbsctp"}
 			fmt.Sscan(f[1], &c.maxMsg)
 			if c.hbMode {
@@ -199,8 +210,9 @@ func c16Replay(t *testing.T, out *vlib.Out, path string) {
 					if len(p) != 2 {
 						continue
 					}
-					// the ground-truth flag is not on the line: a message equal to the payload is taken for data
-					c.items = append(c.items, c16Item{c16Unhex(p[0]), p[1], false})
+					// a message equal to the payload is data unless the ground-truth flags of the replay line say otherwise
+					k := len(c.items)
+					c.items = append(c.items, c16Item{c16Unhex(p[0]), p[1], c.hbMode && k < len(flags) && flags[k] == '1'})
 				}
 			}
 			if f[4] != "" {
